@@ -497,7 +497,13 @@ func (s *Server) GetResolved(docURI protocol.DocumentURI) *include.ResolvedJourn
 func (s *Server) getWorkspaceResolved(docURI protocol.DocumentURI) *include.ResolvedJournal {
 	if s.workspace != nil {
 		if resolved := s.workspace.GetResolved(); resolved != nil {
-			return s.withOpenDocuments(resolved)
+			// a document that the workspace's root journal does not include is
+			// answered from its own include tree, not from a tree it is not part of
+			path := uriToPath(docURI)
+			_, included := resolved.Files[path]
+			if own := s.GetResolved(docURI); own == nil || included || path == resolved.PrimaryPath {
+				return s.withOpenDocuments(resolved)
+			}
 		}
 	}
 	return s.withOpenDocuments(s.GetResolved(docURI))
